@@ -21,9 +21,9 @@ enum Part {
     /// a comment line: indentation, text after the two slashes (untrimmed)
     Comment { indent: String, body: String },
     /// @key: <text>;   with the constant it denotes (None = not a constant / not valid)
-    Meta { key: String, text: String, value: Option<Value>, trailing_comment: bool },
+    Meta { key: String, text: String, value: Option<Value>, trailing_comment: Option<String> },
     /// a fragment of the expression on a line of its own
-    Code { text: String, trailing_comment: bool },
+    Code { text: String, trailing_comment: Option<String> },
 }
 
 #[derive(Debug, PartialEq)]
@@ -92,14 +92,14 @@ fn render(parts: &[Part], eol: &str, final_eol: bool) -> String {
             Part::Comment { indent, body } => out.push_str(&format!("{indent}//{body}")),
             Part::Meta { key, text, trailing_comment, .. } => {
                 out.push_str(&format!("@{key}: {text};"));
-                if *trailing_comment {
-                    out.push_str(" // trailing, not a comment line");
+                if let Some(c) = trailing_comment {
+                    out.push_str(&format!(" //{c}"));
                 }
             }
             Part::Code { text, trailing_comment } => {
                 out.push_str(text);
-                if *trailing_comment {
-                    out.push_str(" // trailing, not a comment line");
+                if let Some(c) = trailing_comment {
+                    out.push_str(&format!(" //{c}"));
                 }
             }
         }
@@ -108,6 +108,36 @@ fn render(parts: &[Part], eol: &str, final_eol: bool) -> String {
         }
     }
     out
+}
+
+/// what follows the two slashes of a trailing comment (never a comment line, whatever it contains)
+fn trailing(rng: &mut Rng, one_in: usize) -> Option<String> {
+    if !rng.chance(1, one_in) {
+        return None;
+    }
+    Some(rng.pick(&[" trailing, not a comment line", "", " 6\" and taller", " \"quoted\"", " it's", " back\\slash", " ends with backslash \\", " \\\" escaped quote", " // nested", "/ triple", " @k: i1;", " \"", "\"\"\"", " a \" b \" c \" d", " ünï \u{a0}", " i1 + i2"]).to_string())
+}
+
+/// every character with the Unicode White_Space property that is not a line terminator for `str::lines`
+const SPACES: [&str; 22] = [" ", "\t", "\u{b}", "\u{c}", "\u{85}", "\u{a0}", "\u{1680}", "\u{2000}", "\u{2001}", "\u{2002}", "\u{2003}", "\u{2004}", "\u{2005}", "\u{2006}", "\u{2007}", "\u{2008}", "\u{2009}", "\u{200a}", "\u{2028}", "\u{202f}", "\u{205f}", "\u{3000}"];
+/// look like spaces but are not White_Space: they belong to the name
+const NOT_SPACES: [&str; 4] = ["\u{200b}", "\u{feff}", "\u{180e}", "\u{2060}"];
+
+fn comment_body(rng: &mut Rng) -> String {
+    if rng.chance(1, 2) {
+        return rng.pick(&[" rule name", "name", "  padded name  ", "", " ", "/ triple slash", " description line", " second // slashes", "\ttabbed", " ünï", " @k: i1;", " i1 + i2"]).to_string();
+    }
+    let pad = |rng: &mut Rng| -> String { (0..rng.below(4)).map(|_| *rng.pick(&SPACES)).collect() };
+    let core = match rng.below(8) {
+        0 => String::new(),
+        1 => format!("{}name", rng.pick(&NOT_SPACES)),
+        2 => format!("name{}", rng.pick(&NOT_SPACES)),
+        3 => format!("two{}words", rng.pick(&SPACES)),
+        4 => "6\" tall".to_string(),
+        5 => "\"quoted\" \\".to_string(),
+        _ => rng.pick(&["rule name", "n", "Description text.", "ünï çødé", "a // b", "x;"]).to_string(),
+    };
+    format!("{}{core}{}", pad(rng), pad(rng))
 }
 
 fn gen_const(rng: &mut Rng, depth: usize) -> Value {
@@ -160,11 +190,11 @@ fn gen_parts(rng: &mut Rng, n_comments: usize, n_meta: usize, expr: &str) -> Vec
         let key = rng.pick(&["k", "priority", "tags", "description", "name", "Name", "owner_1", "k", "names", "name2", "nam", "descriptions", "description2", "desc", "n", "NAME", "Description"]).to_string();
         let part = if kind < 13 {
             let v = if key == "name" && rng.chance(4, 5) { Value::String(rng.pick(&["meta name", "", " padded ", "n\"q"]).to_string()) } else if key == "description" && rng.chance(2, 3) { Value::String(rng.pick(&["meta description", "line1\nline2"]).to_string()) } else { gen_const(rng, 2) };
-            Part::Meta { key, text: value_text(&v).expect("constant is printable"), value: Some(v), trailing_comment: rng.chance(1, 5) }
+            Part::Meta { key, text: value_text(&v).expect("constant is printable"), value: Some(v), trailing_comment: trailing(rng, 5) }
         } else if kind < 17 {
             // not constants
             let text = rng.pick(&["a", "i1 + i2", "[i1, a]", "{x: f(i1)}", "-i5", "int(\"5\")", ":sym", "if true then i1 else i2", "[[i1, [a]]]"]).to_string();
-            Part::Meta { key, text, value: None, trailing_comment: false }
+            Part::Meta { key, text, value: None, trailing_comment: None }
         } else {
             // alternative spellings of constants: hex, escapes, trailing comma, redundant parentheses are NOT constants' syntax … (parenthesised literal is still a literal node)
             let (text, v) = match rng.below(5) {
@@ -174,7 +204,7 @@ fn gen_parts(rng: &mut Rng, n_comments: usize, n_meta: usize, expr: &str) -> Vec
                 3 => ("(i7)".to_string(), Value::Int(7)),
                 _ => ("{b: i1, a: i2, b: i3}".to_string(), Value::Map([("a".to_string(), Value::Int(2)), ("b".to_string(), Value::Int(3))].into_iter().collect())),
             };
-            Part::Meta { key, text, value: Some(v), trailing_comment: false }
+            Part::Meta { key, text, value: Some(v), trailing_comment: None }
         };
         metas.push(part);
     }
@@ -184,10 +214,10 @@ fn gen_parts(rng: &mut Rng, n_comments: usize, n_meta: usize, expr: &str) -> Vec
         Ok(spans) if spans.len() >= 2 && rng.chance(1, 2) => {
             let cut = 1 + rng.below(spans.len() - 1);
             let at = spans[cut].1;
-            codes.push(Part::Code { text: expr[..at].trim_end().to_string(), trailing_comment: rng.chance(1, 4) });
-            codes.push(Part::Code { text: format!("{}{}", if rng.chance(1, 2) { "    " } else { "" }, &expr[at..]), trailing_comment: rng.chance(1, 4) });
+            codes.push(Part::Code { text: expr[..at].trim_end().to_string(), trailing_comment: trailing(rng, 4) });
+            codes.push(Part::Code { text: format!("{}{}", if rng.chance(1, 2) { "    " } else { "" }, &expr[at..]), trailing_comment: trailing(rng, 4) });
         }
-        _ => codes.push(Part::Code { text: expr.to_string(), trailing_comment: rng.chance(1, 4) }),
+        _ => codes.push(Part::Code { text: expr.to_string(), trailing_comment: trailing(rng, 4) }),
     }
     // a trailing comment right after a fragment that ends inside … a string cannot happen: cuts are at token boundaries.
     let mut parts: Vec<Part> = vec![];
@@ -195,8 +225,8 @@ fn gen_parts(rng: &mut Rng, n_comments: usize, n_meta: usize, expr: &str) -> Vec
     parts.extend(codes);
     // comment lines anywhere: before, between, after
     for _ in 0..n_comments {
-        let indent = rng.pick(&["", "", "  ", "\t", " \t ", "\u{a0}"]).to_string();
-        let body = rng.pick(&[" rule name", "name", "  padded name  ", "", " ", "/ triple slash", " description line", " second // slashes", "\ttabbed", " ünï", " @k: i1;", " i1 + i2"]).to_string();
+        let indent = if rng.chance(1, 6) { rng.pick(&SPACES).to_string() } else { rng.pick(&["", "", "  ", "\t", " \t ", "\u{a0}"]).to_string() };
+        let body = comment_body(rng);
         let pos = rng.below(parts.len() + 1);
         parts.insert(pos, Part::Comment { indent, body });
     }
